@@ -1,3 +1,133 @@
-/-! # C13 — (stub: property theorems go here; see docs/BUILDING.md) -/
+import PtVerif.Proofs.GrammarPrint
+import PtVerif.Proofs.PrintReal
+import PtVerif.Proofs.GrammarSound
+import PtVerif.Model.GrammarTable
+/-!
+# C13 — printing a formula and parsing it back gives the same formula
+
+Models: `Model/Print.lean` (`_str_atoms` = `strItems`, `_str_count` = `strCount`, `%g` = `fmtG6`,
+`__str__`/`__repr__`) and `Model/Grammar.lean` (the pyparsing grammar, `parse`); both tied to
+formulas.py on every run by `harness/ptv/props/C13.py`.  Counts are the exact rational values of
+the Python numbers; `round6` is the count at the printed precision of six significant digits.
+
+The statement "same nesting" fails for a group whose multiplier prints as `1` (known finding D17):
+the full statement is `parse_print_full`, refuted by `parse_print_full_counterexample`; what is
+proved is `parse_print` (nesting up to `norm`, which splices exactly those groups) and
+`parse_print_same_nesting` (the full conclusion where no such group occurs).
+-/
 namespace PtVerif.C13
+open PtModel PtModel.Grammar PtModel.Print
+
+/-- **print then parse**, for every table serving each entry under its own symbol, every nesting
+    depth, every structure over atoms the grammar can name with positive counts of any magnitude:
+    `str(f)` is a string of the grammar and parses back to the same atoms in the same order and
+    nesting, each count rounded to six significant digits, groups whose printed count is 1 spliced
+    into their parent; no density tag is invented. -/
+theorem parse_print (T : Table) (hT : T.wf = true) (s : Items Q) (hs : okItems T s = true) :
+    parse T (strItems T s) = .ok (norm (roundItems s), none) :=
+  parse_strItems T hT s hs
+
+/-- **`str(formula)` is itself a string of the grammar**: the printed text is the yield of a
+    derivation of the documented grammar (Model/GrammarSpec.lean) that denotes the rounded formula -/
+theorem printed_is_grammar_string (T : Table) (hT : T.wf = true) (s : Items Q) (hs : okItems T s = true) :
+    ∃ D : Compound, D.wf = true ∧ D.text = strItems T s ∧ D.result T = some (norm (roundItems s), none) :=
+  Grammar.parse_sound T _ _ _ (parse_print T hT s hs)
+
+/-- the full statement of the property: the *same* nesting -/
+def parse_print_full : Prop :=
+  ∀ (T : Table) (s : Items Q), T.wf = true → okItems T s = true →
+    parse T (strItems T s) = .ok (roundItems s, none)
+
+/-- the same nesting, wherever no group's printed count is 1 -/
+theorem parse_print_same_nesting (T : Table) (hT : T.wf = true) (s : Items Q) (hs : okItems T s = true)
+    (hu : noUnit (roundItems s) = true) :
+    parse T (strItems T s) = .ok (roundItems s, none) := by
+  rw [parse_print T hT s hs, norm_id _ hu]
+
+/-- the public table, as the translator reads it from core.py / mass.py on this run, serves every
+    entry under its own symbol (so the theorems above apply to it) -/
+theorem genTable_wf : genTable.wf = true := by decide +kernel
+
+/-- every element `Z ≥ 1` of the regenerated table, and D and T, has a symbol the grammar reads -/
+theorem genTable_symbols_readable : genTable.all (fun e => e.z = 0 || symOK e.sym) = true := by
+  decide +kernel
+
+/-- D17: `1.0000001 * formula("H2O")` prints `(H2O)1` and parses back without the group -/
+def d17 : Items Q :=
+  .cons ⟨10000001, 10000000⟩ (.group (.cons ⟨2, 1⟩ (.atom ⟨1, 0, 0⟩) (.cons ⟨1, 1⟩ (.atom ⟨8, 0, 0⟩) .nil))) .nil
+
+theorem parse_print_full_counterexample : ¬ parse_print_full := by
+  intro h
+  have h1 := h genTable d17 genTable_wf (by decide +kernel)
+  have h2 : parse genTable (strItems genTable d17) ≠ .ok (roundItems d17, none) := by decide +kernel
+  exact h2 h1
+
+/-- a positive count is printed as a positive count -/
+theorem printed_count_positive (q : Q) (hn : 0 < q.num) (hd : 0 < q.den) : 0 < (round6 q).num :=
+  round6_pos q hn hd
+
+/-- six significant digits: the mantissa of the printed count has exactly six digits -/
+theorem six_digits (n d : Nat) (hn : 0 < n) (hd : 0 < d) :
+    10 ^ 5 ≤ (sig6 n d).1 ∧ (sig6 n d).1 < 10 ^ 6 := sig6_range n d hn hd
+
+/-- **every count equal to the printed precision**: for a positive count `q` with
+    `10^e ≤ q < 10^(e+1)` the printed count is `m · 10^(e-5)` for an integer `10^5 ≤ m ≤ 10^6`
+    (six significant digits) and lies within half a unit of the sixth digit of `q` -/
+theorem printed_count_is_six_digit_rounding (q : Q) (hn : 0 < q.num) (hd : 0 < q.den) :
+    ∃ (m : ℕ) (e : ℤ), (10 : ℚ) ^ e ≤ q.val ∧ q.val < (10 : ℚ) ^ (e + 1) ∧
+      10 ^ 5 ≤ m ∧ m ≤ 10 ^ 6 ∧ (round6 q).toRat = (m : ℚ) * (10 : ℚ) ^ (e - 5) ∧
+      |(round6 q).toRat - q.val| ≤ (10 : ℚ) ^ (e - 5) / 2 := round6_spec q hn hd
+
+/-- **exactly for counts that need no more**: a count `k · 10^p` with at most six significant
+    digits (`0 < k < 10^6`, any magnitude `p`) is printed – and parsed back – exactly -/
+theorem printed_count_exact (q : Q) (hd : 0 < q.den) (k : ℕ) (p : ℤ) (hk : 0 < k) (hk6 : k < 10 ^ 6)
+    (hq : q.val = (k : ℚ) * (10 : ℚ) ^ p) : (round6 q).toRat = q.val :=
+  round6_exact q hd k p hk hk6 hq
+
+/-- the count 1, in any representation, is the printed count 1 (and is not written) -/
+theorem round6_unit (n : Nat) (hn : 0 < n) : round6 ⟨n, n⟩ = Cnt.one := round6_one n hn
+
+/-- the printed count is read back as itself by the count token of the grammar -/
+theorem printed_count_reads_back (q : Q) (hn : 0 < q.num) (hd : 0 < q.den) (rest : List Char)
+    (hr : NoNumHead rest) : pCount (strCount q ++ rest) = .ok (round6 q, rest) :=
+  pCount_showCnt (round6 q) (fun _ => round6_pos q hn hd) rest hr
+
+/-- `repr` shows `formula('<str>')` -/
+theorem repr_eq (T : Table) (name : Option (List Char)) (s : Items Q) :
+    reprFormula T name s = "formula('".toList ++ strFormula T name s ++ "')".toList := rfl
+
+/-- a named formula prints its name -/
+theorem named_prints_name (T : Table) (c : Char) (cs : List Char) (s : Items Q) :
+    strFormula T (some (c :: cs)) s = c :: cs := rfl
+
+/-- an unnamed formula prints its atoms -/
+theorem unnamed_prints_atoms (T : Table) (s : Items Q) :
+    strFormula T none s = strItems T s ∧ strFormula T (some []) s = strItems T s := ⟨rfl, rfl⟩
+
+/-- `%g` switches to exponent form exactly where six digits round up to 10^6 … -/
+theorem fmtG6_high_switch :
+    fmtG6 ⟨1999999, 2⟩ = "1e+06".toList ∧ fmtG6 ⟨9999994, 10⟩ = "999999".toList := by decide +kernel
+
+/-- … and below 10^-4; ties go to the even digit -/
+theorem fmtG6_low_switch :
+    fmtG6 ⟨1, 10000⟩ = "0.0001".toList ∧ fmtG6 ⟨999999, 10000000000⟩ = "9.99999e-05".toList ∧
+    fmtG6 ⟨200001, 2⟩ = "100000".toList ∧ fmtG6 ⟨200003, 2⟩ = "100002".toList := by
+  decide +kernel
+
+/-- the repaired printer never writes an exponent: `2e+06` is `2000000`, `1e-05` is `0.00001` -/
+theorem strCount_positional :
+    strCount ⟨2000000, 1⟩ = "2000000".toList ∧ strCount ⟨1, 100000⟩ = "0.00001".toList := by
+  decide +kernel
+
+/-! non-vacuity: a nested structure with an isotope ion, a D ion, a decimal and a large count
+    satisfies the hypotheses of `parse_print`, and its round trip is as stated -/
+def sample : Items Q :=
+  .cons ⟨2, 1⟩ (.atom ⟨1, 2, 1⟩) (.cons ⟨3, 2⟩ (.group (.cons ⟨1, 1⟩ (.atom ⟨26, 56, 3⟩)
+    (.cons ⟨12345678, 1⟩ (.atom ⟨8, 0, -2⟩) .nil))) .nil)
+
+example : okItems genTable sample = true := by decide +kernel
+example : strItems genTable sample = "D{+}2(Fe[56]{3+}O{2-}12345700)1.5".toList := by decide +kernel
+example : noUnit (roundItems sample) = true := by decide +kernel
+example : okItems genTable d17 = true ∧ strItems genTable d17 = "(H2O)1".toList := by decide +kernel
+
 end PtVerif.C13
